@@ -45,3 +45,428 @@ Example crash_nonvacuous :
       (Some (Reg (bs "new") 420), Some (Reg (bs "old") 420));
       (Some (Reg (bs "new") 420), Some (Reg (bs "old") 420)) ].
 Proof. vm_compute. reflexivity. Qed.
+
+(* ===== merged from Properties_WholeRename.v (crash points of a pure rename) ===== *)
+From PatchV Require Import Base Lines Hunk Locator Formatter Options Applier LineParser Parser World Driver
+     Spec_Locate Spec_Apply Spec_Names Proofs_Base Proofs_Lines Proofs_Unified Proofs_Filler Proofs_Conf Proofs_World Proofs_Reverse
+     Proofs_Sections Proofs_Sections_Unified Proofs_Touch Proofs_Whole Proofs_WholeGit Proofs_WholeNames Proofs_WholeRename.
+Theorem pure_rename_never_lost_gen : forall o f0 fl tl g sim rfrom rto oldn newn w data mode,
+  plain_options o -> format_from_options o = Ok f0 ->
+  Forall (Filler (strip_size o) (empty_patch f0)) fl -> Forall clean fl -> Forall (Trailing (strip_size o)) tl ->
+  rename_text (strip_size o) g sim rfrom rto oldn newn ->
+  rename_ready (fs w) (rename_src o oldn newn) (rename_dst o oldn newn) data mode ->
+  match process_patch o (join_lines (fl ++ rename_lines g sim rfrom rto ++ tl)) w with
+  | (Ok _, w') => lookup (fs w') (rename_src o oldn newn) = None /\
+                  lookup (fs w') (rename_dst o oldn newn) = Some (Reg (rewritten o data) mode)
+  | (Throw _, w') => lookup (fs w') (rename_src o oldn newn) = Some (Reg data mode) \/
+                     lookup (fs w') (rename_dst o oldn newn) = Some (Reg (rewritten o data) mode)
+  end.
+Proof. exact Proofs_WholeRename.pure_rename_never_lost_gen. Qed.
+Print Assumptions pure_rename_never_lost_gen.
+
+Theorem pure_rename_never_lost : forall o f0 fl tl oldn newn sim w data mode,
+  plain_options o -> reverse_patch_opt o = false -> format_from_options o = Ok f0 ->
+  Forall (Filler (strip_size o) (empty_patch f0)) fl -> Forall clean fl -> Forall (Trailing (strip_size o)) tl ->
+  hd 0%N oldn <> 34%N -> hd 0%N newn <> 34%N -> clean oldn -> clean newn -> clean sim ->
+  rename_ready (fs w) (ext_name (strip_size o) (bs "a/") oldn) (ext_name (strip_size o) (bs "b/") newn) data mode ->
+  rewritten o data = data ->
+  forall r w', process_patch o (join_lines (fl ++ rename_lines ((bs "a/" ++ oldn) ++ bs " b/" ++ newn) sim oldn newn ++ tl)) w = (r, w') ->
+  lookup (fs w') (ext_name (strip_size o) (bs "a/") oldn) = Some (Reg data mode) \/
+  lookup (fs w') (ext_name (strip_size o) (bs "b/") newn) = Some (Reg data mode).
+Proof. exact Proofs_WholeRename.pure_rename_never_lost. Qed.
+Print Assumptions pure_rename_never_lost.
+
+Theorem pure_rename_fault_at_any_operation : forall o f0 fl tl oldn newn sim w data mode k,
+  plain_options o -> reverse_patch_opt o = false -> format_from_options o = Ok f0 ->
+  Forall (Filler (strip_size o) (empty_patch f0)) fl -> Forall clean fl -> Forall (Trailing (strip_size o)) tl ->
+  hd 0%N oldn <> 34%N -> hd 0%N newn <> 34%N -> clean oldn -> clean newn -> clean sim ->
+  fault w = Some k ->
+  rename_ready (fs w) (ext_name (strip_size o) (bs "a/") oldn) (ext_name (strip_size o) (bs "b/") newn) data mode ->
+  rewritten o data = data ->
+  let w' := snd (process_patch o (join_lines (fl ++ rename_lines ((bs "a/" ++ oldn) ++ bs " b/" ++ newn) sim oldn newn ++ tl)) w) in
+  lookup (fs w') (ext_name (strip_size o) (bs "a/") oldn) = Some (Reg data mode) \/
+  lookup (fs w') (ext_name (strip_size o) (bs "b/") newn) = Some (Reg data mode).
+Proof. exact Proofs_WholeRename.pure_rename_fault_at_any_operation. Qed.
+Print Assumptions pure_rename_fault_at_any_operation.
+
+Theorem pure_rename_reverse_never_lost : forall o f0 fl tl oldn newn sim w data mode,
+  plain_options o -> reverse_patch_opt o = true -> format_from_options o = Ok f0 ->
+  Forall (Filler (strip_size o) (empty_patch f0)) fl -> Forall clean fl -> Forall (Trailing (strip_size o)) tl ->
+  hd 0%N oldn <> 34%N -> hd 0%N newn <> 34%N -> clean oldn -> clean newn -> clean sim ->
+  rename_ready (fs w) (ext_name (strip_size o) (bs "b/") newn) (ext_name (strip_size o) (bs "a/") oldn) data mode ->
+  rewritten o data = data ->
+  forall r w', process_patch o (join_lines (fl ++ rename_lines ((bs "a/" ++ oldn) ++ bs " b/" ++ newn) sim oldn newn ++ tl)) w = (r, w') ->
+  lookup (fs w') (ext_name (strip_size o) (bs "b/") newn) = Some (Reg data mode) \/
+  lookup (fs w') (ext_name (strip_size o) (bs "a/") oldn) = Some (Reg data mode).
+Proof. exact Proofs_WholeRename.pure_rename_reverse_never_lost. Qed.
+Print Assumptions pure_rename_reverse_never_lost.
+
+(* ===== merged from Properties_CrashRun.v ===== *)
+From PatchV Require Import Base Lines Hunk Locator Formatter Options Applier LineParser Parser World Driver
+     Proofs_Base Proofs_World Proofs_Driver Proofs_Touch Proofs_Sections Proofs_CrashRun.
+
+(* ================= (1) the source of a rename outlives the complete writing of its destination ================= *)
+
+(* The finalisation of a run (deferred writes, then deferred removals), for every state the loop over the sections can leave,
+   every world and every pending failure.  [Steps w log w'] : log is the history of the operations performed from w to w'
+   with the result of each (None = success).  Every removal in it comes after the successful write of the complete
+   content of EVERY deferred write. *)
+Theorem finish_unlink_after_writes : forall o st w,
+  exists log, Steps w log (snd (finish o st w)) /\
+    forall d, In d (deferred_writes st) -> lpreceded (wrote d) is_unlink log.
+Proof. exact Proofs_CrashRun.finish_unlink_after_writes. Qed.
+Print Assumptions finish_unlink_after_writes.
+
+(* ... and the removals are those of the sources recorded, never of a name that is also written *)
+Theorem finish_unlinks_sources_only : forall o st,
+  TP (fun op => forall q, op = OUnlink q ->
+                  In q (deferred_removals st) /\ existsb (fun d => str_eqb (d_dest d) q) (deferred_writes st) = false) (finish o st).
+Proof. exact Proofs_CrashRun.finish_unlinks_sources_only. Qed.
+Print Assumptions finish_unlinks_sources_only.
+
+(* an entry (OWrite p data, None) of a history is a moment of the run at which p held the complete data *)
+Theorem wrote_moment : forall d w l1 en l2 w',
+  Steps w (l1 ++ en :: l2) w' -> wrote d en ->
+  exists wa wb, Steps w l1 wa /\ Steps wb l2 w' /\ content (fs wb) (d_dest d) = Some (d_data d).
+Proof. exact Proofs_CrashRun.wrote_moment. Qed.
+Print Assumptions wrote_moment.
+
+(* the trace of World.v is the history without the results *)
+Theorem Steps_trace : forall w l w', Steps w l w' -> trace w' = trace w ++ map fst l.
+Proof. exact Proofs_CrashRun.Steps_trace. Qed.
+Print Assumptions Steps_trace.
+
+(* the whole run: the loop over the sections, then (only when the loop returns normally) the finalisation *)
+Theorem rename_source_outlives_destination : forall o f t w,
+  format_from_options o = Ok f ->
+  match section_loop (S (S (length t))) o f ds0 (stream_of t) true w with
+  | (Throw e, w1) => process_patch o t w = (Throw e, w1)
+  | (Ok st, w1) =>
+      exists log, Steps w1 log (snd (process_patch o t w)) /\
+        (forall d, In d (deferred_writes st) -> lpreceded (wrote d) is_unlink log) /\
+        (forall q r, In (OUnlink q, r) log ->
+           In q (deferred_removals st) /\ existsb (fun d => str_eqb (d_dest d) q) (deferred_writes st) = false)
+  end.
+Proof. exact Proofs_CrashRun.rename_source_outlives_destination. Qed.
+Print Assumptions rename_source_outlives_destination.
+
+(* a rename that is not deferred (a symbolic link; any format other than git): inside the section, every removal of the
+   source comes after the successful complete write (or creation) of the output file *)
+Theorem section_tail_unlink_after_write : forall o ftp outf, ftp <> outf ->
+  forall st operms operms1 needed ar s2,
+  Hist (section_tail o st ftp outf operms operms1 needed ar s2)
+       (fun _ l => lpreceded (wrote_out outf (lines_bytes (newline_output o) (r_out ar))) (unlink_of ftp) l).
+Proof. exact Proofs_CrashRun.section_tail_unlink_after_write. Qed.
+Print Assumptions section_tail_unlink_after_write.
+
+Theorem section_unlink_after_write : forall o st should p s w,
+  let ftp := if is_nil (file_to_patch o) then guess_filepath (fs w) (map d_dest (deferred_writes st)) p o else file_to_patch o in
+  let outf := output_path o p ftp in
+  ftp <> outf ->
+  exists log, Steps w log (snd (process_section o st should p s w)) /\
+    lpreceded (fun en => exists data, wrote_out outf data en) (unlink_of ftp) log.
+Proof. exact Proofs_CrashRun.section_unlink_after_write. Qed.
+Print Assumptions section_unlink_after_write.
+
+(* on the tree, every list of deferred writes: as long as they have not ALL succeeded the source holds its original node *)
+Theorem source_kept_until_all_written : forall o st w src n,
+  let ds := deferred_writes st in
+  (forall d, In d ds -> src <> d_dest d /\ src <> backup_name o (d_dest d)) ->
+  clear_of o ds src n (fs w) ->
+  match finalize_writes o st ds w with
+  | (Ok st1, w1) => lookup (fs w1) src = Some n
+  | (Throw e, w1) => finish o st w = (Throw e, w1) /\ lookup (fs w1) src = Some n
+  end.
+Proof. exact Proofs_CrashRun.source_kept_until_all_written. Qed.
+Print Assumptions source_kept_until_all_written.
+
+(* on the tree, one deferred rename followed by the finalisation: the source is as it was, or the destination is complete *)
+Theorem rename_source_or_destination : forall o st d w src n,
+  deferred_writes st = [d] ->
+  src <> d_dest d -> src <> backup_name o (d_dest d) ->
+  lookup (fs w) src = Some n -> ns (fs w) (d_dest d) -> ns (fs w) (backup_name o (d_dest d)) ->
+  let w' := snd (finish o st w) in
+  lookup (fs w') src = Some n \/ exists mode, lookup (fs w') (d_dest d) = Some (Reg (d_data d) mode).
+Proof. exact Proofs_CrashRun.rename_source_or_destination. Qed.
+Print Assumptions rename_source_or_destination.
+
+(* ================= (2) with --backup the original is in full at its path or at its backup path ================= *)
+Theorem backup_section_keeps_original : forall o st should p s w data mode,
+  let ftp := if is_nil (file_to_patch o) then guess_filepath (fs w) (map d_dest (deferred_writes st)) p o else file_to_patch o in
+  let f := output_path o p ftp in
+  save_backup o = true ->
+  reject_path o f <> f -> (forall t, lookup (fs w) (reject_path o f) <> Some (Sym t)) ->
+  ftp <> backup_name o f ->
+  lookup (fs w) f = Some (Reg data mode) -> exists_ (fs w) f = true ->
+  existsb (str_eqb (backup_name o f)) (backed_up st) = false ->
+  let w' := snd (process_section o st should p s w) in
+  lookup (fs w') f = Some (Reg data mode) \/ lookup (fs w') (backup_name o f) = Some (Reg data mode).
+Proof. exact Proofs_CrashRun.backup_section_keeps_original. Qed.
+Print Assumptions backup_section_keeps_original.
+
+Theorem backup_section_then_finish_keeps_original : forall o st should p s w data mode,
+  let ftp := if is_nil (file_to_patch o) then guess_filepath (fs w) (map d_dest (deferred_writes st)) p o else file_to_patch o in
+  let f := output_path o p ftp in
+  save_backup o = true ->
+  reject_path o f <> f -> (forall t, lookup (fs w) (reject_path o f) <> Some (Sym t)) ->
+  ftp <> backup_name o f ->
+  lookup (fs w) f = Some (Reg data mode) -> exists_ (fs w) f = true ->
+  existsb (str_eqb (backup_name o f)) (backed_up st) = false ->
+  deferred_writes st = [] -> deferred_removals st = [] ->
+  let w' := snd ((let! y := process_section o st should p s in finish o (fst y)) w) in
+  lookup (fs w') f = Some (Reg data mode) \/ lookup (fs w') (backup_name o f) = Some (Reg data mode).
+Proof. exact Proofs_CrashRun.backup_section_then_finish_keeps_original. Qed.
+Print Assumptions backup_section_then_finish_keeps_original.
+
+Theorem backup_run_keeps_original : forall o fmt t should p s1 found w data mode,
+  let ftp := if is_nil (file_to_patch o) then guess_filepath (fs w) [] p o else file_to_patch o in
+  let f := output_path o p ftp in
+  format_from_options o = Ok fmt ->
+  parse_patch_header_full (empty_patch fmt) (strip_size o) (stream_of t) = Ok (should, p, s1, found) ->
+  (if negb found && should then FUnknown else pfmt p) <> FUnknown ->
+  poper p <> OpBinary ->
+  (forall st1 s2 w1, process_section o ds0 should p s1 w = (Ok (st1, s2), w1) -> ends_here o fmt s2 = true) ->
+  save_backup o = true ->
+  reject_path o f <> f -> (forall t0, lookup (fs w) (reject_path o f) <> Some (Sym t0)) ->
+  ftp <> backup_name o f ->
+  lookup (fs w) f = Some (Reg data mode) -> exists_ (fs w) f = true ->
+  let w' := snd (process_patch o t w) in
+  lookup (fs w') f = Some (Reg data mode) \/ lookup (fs w') (backup_name o f) = Some (Reg data mode).
+Proof. exact Proofs_CrashRun.backup_run_keeps_original. Qed.
+Print Assumptions backup_run_keeps_original.
+
+(* ================= (3) a fatal error caused by the patch text leaves whole states ================= *)
+Theorem text_abort_keeps_whole_states : forall o f t w st' s' w',
+  format_from_options o = Ok f ->
+  sections_done o f ds0 (stream_of t) w st' s' w' ->
+  bad_section_text o f s' ->
+  exists e w'', process_patch o t w = (Throw e, w'') /\ same_tree_after w' w''.
+Proof. exact Proofs_CrashRun.text_abort_keeps_whole_states. Qed.
+Print Assumptions text_abort_keeps_whole_states.
+
+Theorem text_abort_run : forall o f stdin t w0 w st' s' w',
+  patch_file_bytes o stdin w0 = (Ok t, w) ->
+  format_from_options o = Ok f ->
+  sections_done o f ds0 (stream_of t) w st' s' w' ->
+  bad_section_text o f s' ->
+  rr_exit (run_patch o stdin w0) = 2 /\ same_tree_after w' (rr_world (run_patch o stdin w0)).
+Proof. exact Proofs_CrashRun.text_abort_run. Qed.
+Print Assumptions text_abort_run.
+
+Theorem text_abort_after_first_section : forall o f t t2 should p s1 found st1 w w1,
+  format_from_options o = Ok f ->
+  parse_patch_header_full (empty_patch f) (strip_size o) (stream_of t) = Ok (should, p, s1, found) ->
+  (if negb found && should then FUnknown else pfmt p) <> FUnknown ->
+  poper p <> OpBinary ->
+  process_section o ds0 should p s1 w = (Ok (st1, stream_of t2), w1) ->
+  bad_section_text o f (stream_of t2) ->
+  exists e w2, process_patch o t w = (Throw e, w2) /\ same_tree_after w1 w2.
+Proof. exact Proofs_CrashRun.text_abort_after_first_section. Qed.
+Print Assumptions text_abort_after_first_section.
+
+Theorem no_patch_text_abort : forall o f t w should p s1 found,
+  format_from_options o = Ok f ->
+  parse_patch_header_full (empty_patch f) (strip_size o) (stream_of t) = Ok (should, p, s1, found) ->
+  (if negb found && should then FUnknown else pfmt p) = FUnknown ->
+  process_patch o t w = (Throw EInvalidArgument, w).
+Proof. exact Proofs_CrashRun.no_patch_text_abort. Qed.
+Print Assumptions no_patch_text_abort.
+
+(* ================= non-vacuity ================= *)
+Local Open Scope string_scope.
+Definition cr_nl : list N := [10%N].
+(* plain options; the same with -b *)
+Definition cr_o : options :=
+  mkOptions false false [] [] false [] false false false [] (-1) 2 false [] [] false false false false false false false false
+            OBUnset OBUnset MNative RFDefault ROWarn QSUnset [] [].
+Definition cr_ob : options :=
+  mkOptions true false [] [] false [] false false false [] (-1) 2 false [] [] false false false false false false false false
+            OBUnset OBUnset MNative RFDefault ROWarn QSUnset [] [].
+(* a unified section for f, a git change of f, a git rename of f to h with a change, a section for g whose hunk is cut short *)
+Definition cr_sec_f := bs "--- f" ++ cr_nl ++ bs "+++ f" ++ cr_nl ++ bs "@@ -1 +1 @@" ++ cr_nl ++ bs "-a" ++ cr_nl ++ bs "+b" ++ cr_nl.
+Definition cr_git_f := bs "diff --git a/f b/f" ++ cr_nl ++ bs "--- a/f" ++ cr_nl ++ bs "+++ b/f" ++ cr_nl ++ bs "@@ -1 +1 @@" ++ cr_nl ++ bs "-a" ++ cr_nl ++ bs "+b" ++ cr_nl.
+Definition cr_git_ren := bs "diff --git a/f b/h" ++ cr_nl ++ bs "similarity index 50%" ++ cr_nl ++ bs "rename from f" ++ cr_nl ++ bs "rename to h" ++ cr_nl
+   ++ bs "--- a/f" ++ cr_nl ++ bs "+++ b/h" ++ cr_nl ++ bs "@@ -1 +1 @@" ++ cr_nl ++ bs "-a" ++ cr_nl ++ bs "+b" ++ cr_nl.
+Definition cr_bad_g := bs "--- g" ++ cr_nl ++ bs "+++ g" ++ cr_nl ++ bs "@@ -1 +1 @@" ++ cr_nl ++ bs "-c" ++ cr_nl.
+Definition cr_w k := mkWorld [(bs "f", Reg (bs "a" ++ cr_nl) 420); (bs "g", Reg (bs "c" ++ cr_nl) 420)] 18 [] k [].
+Definition cr_faults := [Some 0; Some 1; Some 2; Some 3; Some 4; Some 5; None].
+
+Definition cr_hdr (t : list N) : bool * patch * stream * bool :=
+  match parse_patch_header_full (empty_patch FUnknown) (-1) (stream_of t) with
+  | Ok x => x
+  | Throw _ => (false, empty_patch FUnknown, stream_of [], false)
+  end.
+Definition cr_should t := fst (fst (fst (cr_hdr t))).
+Definition cr_p t := snd (fst (fst (cr_hdr t))).
+Definition cr_s1 t := snd (fst (cr_hdr t)).
+Definition cr_found t := snd (cr_hdr t).
+
+(* ---- (1): git rename f -> h.  What the loop leaves: one deferred write (the complete new content of h), one removal ---- *)
+Definition cr_d := mkDef (bs "b" ++ cr_nl) (bs "h") true false None (Some 420%N).
+Definition cr_st := mkDS false [] [cr_d] [bs "f"] [].
+Example cr_rename_loop : forall k,
+  section_loop (S (S (length cr_git_ren))) cr_o FUnknown ds0 (stream_of cr_git_ren) true (cr_w (Some (S k))) =
+  (Ok cr_st, mkWorld (fs (cr_w None)) 18 [OOpenRead (bs "f")] (Some k) []).
+Proof. intros k. vm_compute. reflexivity. Qed.
+
+(* the hypotheses of rename_source_or_destination hold for it, in every world with this tree, whatever the failure ... *)
+Example cr_rename_state : forall k,
+  let w' := snd (finish cr_o cr_st (cr_w k)) in
+  lookup (fs w') (bs "f") = Some (Reg (bs "a" ++ cr_nl) 420) \/ exists mode, lookup (fs w') (bs "h") = Some (Reg (bs "b" ++ cr_nl) mode).
+Proof.
+  intros k. apply (rename_source_or_destination cr_o cr_st cr_d (cr_w k) (bs "f") (Reg (bs "a" ++ cr_nl) 420)).
+  - reflexivity.
+  - vm_compute. discriminate.
+  - vm_compute. discriminate.
+  - reflexivity.
+  - intros t. vm_compute. discriminate.
+  - intros t. vm_compute. discriminate.
+Qed.
+
+(* ... and this is what happens at each crash point of the whole run (failure at operation 0, 1, ..; none):
+   (result, f, h, the operations) *)
+Example cr_rename_each_fault :
+  map (fun k => let r := process_patch cr_o cr_git_ren (cr_w k) in
+                (match fst r with Ok _ => 0 | Throw _ => 2 end, lookup (fs (snd r)) (bs "f"), lookup (fs (snd r)) (bs "h"), trace (snd r)))
+      [Some 0; Some 1; Some 2; Some 3; None]
+  = [ (2, Some (Reg (bs "a" ++ cr_nl) 420), None, [OOpenRead (bs "f")]);
+      (2, Some (Reg (bs "a" ++ cr_nl) 420), None, [OOpenRead (bs "f"); OWrite (bs "h") (bs "b" ++ cr_nl)]);
+      (2, Some (Reg (bs "a" ++ cr_nl) 420), Some (Reg (bs "b" ++ cr_nl) 420), [OOpenRead (bs "f"); OWrite (bs "h") (bs "b" ++ cr_nl); OChmod (bs "h") 420]);
+      (2, Some (Reg (bs "a" ++ cr_nl) 420), Some (Reg (bs "b" ++ cr_nl) 420), [OOpenRead (bs "f"); OWrite (bs "h") (bs "b" ++ cr_nl); OChmod (bs "h") 420; OUnlink (bs "f")]);
+      (0, None, Some (Reg (bs "b" ++ cr_nl) 420), [OOpenRead (bs "f"); OWrite (bs "h") (bs "b" ++ cr_nl); OChmod (bs "h") 420; OUnlink (bs "f")]) ].
+Proof. vm_compute. reflexivity. Qed.
+
+(* the history of the finalisation without failure: the removal is its last entry, the successful write its first *)
+Example cr_rename_history :
+  Steps (cr_w None) [(OWrite (bs "h") (bs "b" ++ cr_nl), None); (OChmod (bs "h") 420, None); (OUnlink (bs "f"), None)]
+        (snd (finish cr_o cr_st (cr_w None))).
+Proof.
+  eapply Steps_cons; [apply same_tree_refl|vm_compute; reflexivity|].
+  eapply Steps_cons; [apply same_tree_refl|vm_compute; reflexivity|].
+  eapply Steps_cons; [apply same_tree_refl|vm_compute; reflexivity|].
+  apply Steps_nil. vm_compute. repeat split.
+Qed.
+
+(* ---- (2): -b, a unified section for f, and a git change of f (deferred), a failure at each operation ---- *)
+Ltac cr_backup_hyps :=
+  match goal with
+  | |- format_from_options _ = _ => reflexivity
+  | |- parse_patch_header_full _ _ _ = _ => vm_compute; reflexivity
+  | |- _ <> _ => vm_compute; discriminate
+  | |- forall st1 s2 w1, _ = _ -> _ => let E := fresh in intros ? ? ? E; vm_compute in E; first [discriminate E | inversion E; subst; vm_compute; reflexivity]
+  | |- forall t0, _ <> _ => intros ?; vm_compute; discriminate
+  | |- _ = _ => vm_compute; reflexivity
+  end.
+
+Example cr_backup_unified :
+  Forall (fun k => let w' := snd (process_patch cr_ob cr_sec_f (cr_w k)) in
+                   lookup (fs w') (bs "f") = Some (Reg (bs "a" ++ cr_nl) 420) \/
+                   lookup (fs w') (bs "f.orig") = Some (Reg (bs "a" ++ cr_nl) 420)) cr_faults.
+Proof.
+  repeat constructor;
+    apply (backup_run_keeps_original cr_ob FUnknown cr_sec_f (cr_should cr_sec_f) (cr_p cr_sec_f) (cr_s1 cr_sec_f) (cr_found cr_sec_f));
+    cr_backup_hyps.
+Qed.
+
+Example cr_backup_git :
+  Forall (fun k => let w' := snd (process_patch cr_ob cr_git_f (cr_w k)) in
+                   lookup (fs w') (bs "f") = Some (Reg (bs "a" ++ cr_nl) 420) \/
+                   lookup (fs w') (bs "f.orig") = Some (Reg (bs "a" ++ cr_nl) 420)) cr_faults.
+Proof.
+  repeat constructor;
+    apply (backup_run_keeps_original cr_ob FUnknown cr_git_f (cr_should cr_git_f) (cr_p cr_git_f) (cr_s1 cr_git_f) (cr_found cr_git_f));
+    cr_backup_hyps.
+Qed.
+
+(* what the tree is at each crash point: (f, f.orig) *)
+Example cr_backup_each_fault :
+  map (fun k => let w' := snd (process_patch cr_ob cr_git_f (cr_w k)) in (lookup (fs w') (bs "f"), lookup (fs w') (bs "f.orig")))
+      [Some 0; Some 1; Some 2; Some 3; None]
+  = [ (Some (Reg (bs "a" ++ cr_nl) 420), None);
+      (Some (Reg (bs "a" ++ cr_nl) 420), None);
+      (None, Some (Reg (bs "a" ++ cr_nl) 420));
+      (Some (Reg (bs "b" ++ cr_nl) 420), Some (Reg (bs "a" ++ cr_nl) 420));
+      (Some (Reg (bs "b" ++ cr_nl) 420), Some (Reg (bs "a" ++ cr_nl) 420)) ].
+Proof. vm_compute. reflexivity. Qed.
+
+(* ---- (3): a complete section for f followed by a section for g that is cut short ---- *)
+Lemma cr_bad_body_unified p s e :
+  pfmt p = FUnified -> parse_unified_patch s = Throw e ->
+  forall p', pfmt p' = pfmt p -> hunks p' = hunks p -> parse_patch_body p' s = Throw e.
+Proof. intros Hf Hb p' E1 _. unfold parse_patch_body. rewrite E1, Hf, Hb. reflexivity. Qed.
+
+Example cr_bad_g_is_bad : bad_section_text cr_ob FUnknown (stream_of cr_bad_g).
+Proof.
+  split; [reflexivity|]. right. exists (cr_p cr_bad_g), (cr_s1 cr_bad_g), (cr_found cr_bad_g), EInvalidArgument.
+  split; [vm_compute; reflexivity|]. split; [vm_compute; discriminate|]. split; [vm_compute; discriminate|].
+  apply cr_bad_body_unified; vm_compute; reflexivity.
+Qed.
+
+Definition cr_run1 k := process_section cr_ob ds0 (cr_should (cr_sec_f ++ cr_bad_g)) (cr_p (cr_sec_f ++ cr_bad_g)) (cr_s1 (cr_sec_f ++ cr_bad_g)) (cr_w k).
+Definition cr_st1 k : dstate := match fst (cr_run1 k) with Ok y => fst y | Throw _ => ds0 end.
+
+(* with -b: whatever happens after the first section (no failure; a failure at the opening of g; a later one) the run ends with
+   status 2 and the tree is exactly the tree the first section left: f patched, f.orig the original, g untouched *)
+Example cr_text_abort :
+  Forall (fun k =>
+    exists e w'', process_patch cr_ob (cr_sec_f ++ cr_bad_g) (cr_w k) = (Throw e, w'') /\
+                  same_tree_after (snd (cr_run1 k)) w'' /\
+                  lookup (fs w'') (bs "f") = Some (Reg (bs "b" ++ cr_nl) 420) /\
+                  lookup (fs w'') (bs "f.orig") = Some (Reg (bs "a" ++ cr_nl) 420) /\
+                  lookup (fs w'') (bs "g") = Some (Reg (bs "c" ++ cr_nl) 420)) [Some 4; Some 5; None].
+Proof.
+  repeat constructor.
+  all: match goal with |- exists e w'', process_patch _ _ (cr_w ?k) = _ /\ _ =>
+         destruct (text_abort_after_first_section cr_ob FUnknown (cr_sec_f ++ cr_bad_g) cr_bad_g
+                     (cr_should (cr_sec_f ++ cr_bad_g)) (cr_p (cr_sec_f ++ cr_bad_g)) (cr_s1 (cr_sec_f ++ cr_bad_g)) (cr_found (cr_sec_f ++ cr_bad_g))
+                     (cr_st1 k) (cr_w k) (snd (cr_run1 k))) as (e & w'' & E & S);
+           [reflexivity|vm_compute; reflexivity|vm_compute; discriminate|vm_compute; discriminate|vm_compute; reflexivity|exact cr_bad_g_is_bad|];
+           exists e, w''; split; [exact E|]; split; [exact S|]; destruct S as (F & _); rewrite F; vm_compute; repeat split; reflexivity
+       end.
+Qed.
+
+(* a git rename followed by the malformed section: the deferred write and removal are dropped, nothing has been touched *)
+Example cr_text_abort_drops_deferred :
+  exists w'', process_patch cr_o (cr_git_ren ++ cr_bad_g) (cr_w None) = (Throw EInvalidArgument, w'') /\
+              fs w'' = fs (cr_w None) /\ trace w'' = [OOpenRead (bs "f"); OOpenRead (bs "g")].
+Proof. eexists. split; [vm_compute; reflexivity|]. split; reflexivity. Qed.
+
+(* the tree at every crash point of the -b run on "f, then malformed g": (status, f, f.orig, g) *)
+Example cr_text_abort_each_fault :
+  map (fun k => let r := process_patch cr_ob (cr_sec_f ++ cr_bad_g) (cr_w k) in
+                (match fst r with Ok _ => 0 | Throw _ => 2 end,
+                 lookup (fs (snd r)) (bs "f"), lookup (fs (snd r)) (bs "f.orig"), lookup (fs (snd r)) (bs "g")))
+      [Some 0; Some 1; Some 2; Some 3; Some 4; None]
+  = [ (2, Some (Reg (bs "a" ++ cr_nl) 420), None, Some (Reg (bs "c" ++ cr_nl) 420));
+      (2, Some (Reg (bs "a" ++ cr_nl) 420), None, Some (Reg (bs "c" ++ cr_nl) 420));
+      (2, None, Some (Reg (bs "a" ++ cr_nl) 420), Some (Reg (bs "c" ++ cr_nl) 420));
+      (2, Some (Reg (bs "b" ++ cr_nl) 420), Some (Reg (bs "a" ++ cr_nl) 420), Some (Reg (bs "c" ++ cr_nl) 420));
+      (2, Some (Reg (bs "b" ++ cr_nl) 420), Some (Reg (bs "a" ++ cr_nl) 420), Some (Reg (bs "c" ++ cr_nl) 420));
+      (2, Some (Reg (bs "b" ++ cr_nl) 420), Some (Reg (bs "a" ++ cr_nl) 420), Some (Reg (bs "c" ++ cr_nl) 420)) ].
+Proof. vm_compute. reflexivity. Qed.
+
+(* ---- the hypotheses of (2) are needed ---- *)
+(* `ftp <> backup_name o f`: a git rename of x.orig to x with -b when x exists.  The backup of x goes over the source of the
+   rename, which is then removed as the source: the original of x is nowhere afterwards (exit status 0). *)
+Definition cr_ren_orig := bs "diff --git a/x.orig b/x" ++ cr_nl ++ bs "similarity index 50%" ++ cr_nl ++ bs "rename from x.orig" ++ cr_nl ++ bs "rename to x" ++ cr_nl
+   ++ bs "--- a/x.orig" ++ cr_nl ++ bs "+++ b/x" ++ cr_nl ++ bs "@@ -1 +1 @@" ++ cr_nl ++ bs "-a" ++ cr_nl ++ bs "+b" ++ cr_nl.
+Example cr_backup_needs_source_not_backup :
+  let w := mkWorld [(bs "x.orig", Reg (bs "a" ++ cr_nl) 420); (bs "x", Reg (bs "precious" ++ cr_nl) 420)] 18 [] None [] in
+  let r := process_patch cr_ob cr_ren_orig w in
+  fst r = Ok (0, []) /\ fs (snd r) = [(bs "x", Reg (bs "b" ++ cr_nl) 420)].
+Proof. vm_compute. split; reflexivity. Qed.
+
+(* `reject_path o f <> f` (-r f) and "the reject file is not a link" (f.rej -> f): the rejects are written before the backup
+   is taken, over the original *)
+Example cr_backup_needs_reject_elsewhere :
+  let o_rf := mkOptions true false [] [] false [] false false false [] (-1) 2 false [] (bs "f") false false false false false false false false
+                        OBUnset OBUnset MNative RFDefault ROWarn QSUnset [] [] in
+  let w1 := mkWorld [(bs "f", Reg (bs "zzz" ++ cr_nl) 420)] 18 [] None [] in
+  let w2 := mkWorld [(bs "f", Reg (bs "zzz" ++ cr_nl) 420); (bs "f.rej", Sym (bs "f"))] 18 [] None [] in
+  let orig := Some (Reg (bs "zzz" ++ cr_nl) 420) in
+  let r1 := snd (process_patch o_rf cr_sec_f w1) in
+  let r2 := snd (process_patch cr_ob cr_sec_f w2) in
+  lookup (fs r1) (bs "f.orig") <> orig /\ lookup (fs r2) (bs "f.orig") <> orig /\
+  (* f holds "the original" again only because the failed hunk left the lines it read unchanged: they were written back *)
+  trace r1 = [OOpenRead (bs "f"); OWrite (bs "f") (cr_sec_f); ORename (bs "f") (bs "f.orig"); OWrite (bs "f") (bs "zzz" ++ cr_nl); OChmod (bs "f") 420].
+Proof. vm_compute. repeat split; discriminate. Qed.
